@@ -1,8 +1,91 @@
-"""Per-check MANIFEST texts."""
-CHECKS = {
+"""Per-check MANIFEST texts. ENABLED lists the properties whose check is registered."""
+import os
+
+_T = {
+ 'C01': dict(
+    technique='runtime reference-model monitor (independent polygon/disk overlap oracle, sub-pixel sampling with tie bands, brute-force index sets) on the recompiled kernels; ASan+UBSan build of the kernels in the thorough tier; executable .pyx source twin',
+    text='Every generated aperture (6 classes, 3 methods, hostile centres/sizes/angles) is masked by the real code running on kernels recompiled from the current generated C, and each pixel weight, the box, the area and the overlap slices are compared with an independent geometric oracle; the thorough tier additionally runs the workload under AddressSanitizer/UBSan. Holds on the executed masks only.',
+    note='Trusted: numpy, shapely (rectangles), the oracle (self-tested against analytic areas and supersampling). .pyx edits cannot be compiled here (no Cython): they are executed only through the de-typed source twin on small masks. Sizes <= 400 px.'),
+ 'C02': dict(
+    technique='runtime reference-model + relation monitors (own full-frame weight-map arithmetic; one-at-a-time, linearity, garbage-in-masked-pixels, sky-vs-pixel relations)',
+    text='aperture_photometry / do_photometry / area_overlap outputs are compared with sums computed by the harness from the aperture mask weights by its own index arithmetic, plus metamorphic relations, over generated images, masks, errors, positions on/over every edge and all call forms.',
+    note='Trusted: numpy, the mask weights themselves (judged by C01), astropy WCS/NDData. Undistorted TAN WCS only.'),
+ 'C03': dict(
+    technique='runtime relation (metamorphic) monitor: integer translation into a zero-padded canvas and axis transposition over a table of public entry points',
+    text='Each scene is measured by the real entry points before and after embedding at an integer offset (dx != dy) and after transposition; positions must move by exactly the offset, everything else must be unchanged within rounding; rows whose footprint leaves the original frame are excluded and counted.',
+    note='Trusted: numpy. Only footprints inside the original frame are judged (as the property states). Tolerances measured on the unchanged tree.'),
  'C04': dict(
+    technique='runtime reference-model monitor (independent BFS oracle) over generated hostile inputs',
     text='Reference-model monitor: every generated image is labelled by an independent BFS implementation of the documented semantics and compared exactly (label arrays, None/warning, labels/slices/areas vs fresh SegmentationImage and vs numpy definitions, detect_threshold formula). Holds on the executed cases only.',
-    note='Trusted: numpy, the harness BFS (self-tested on hand-computed cases), astropy SigmaClip for detect_threshold defaults. Inputs limited to <=24x24 images.',
-    technique='runtime reference-model monitor (independent BFS oracle) over generated hostile inputs'),
+    note='Trusted: numpy, the harness BFS (self-tested on hand-computed cases), astropy SigmaClip for detect_threshold defaults. Inputs limited to <=24x24 images.'),
+ 'C05': dict(
+    technique='runtime history monitor with semantic model + fresh-object oracle (random mutator/read sequences on live SegmentationImage objects)',
+    text='Random histories of public mutators interleaved with attribute reads are driven on one live object; after every step the array is compared with a numpy model of the documented effect and every derived attribute with a freshly constructed object and with direct numpy definitions (exact).',
+    note='Trusted: numpy, shapely/rasterio only as used by the library under test; histories of length <= 8 on arrays <= 14x14 of all integer dtypes, incl. detect/deblend outputs.'),
+ 'C06': dict(
+    technique='runtime refinement monitors + schedule control (virtual pool enumerating completion orders through the real merge code; real spawn pools with injected per-task delays and recorded completion orders)',
+    text='Refinement invariants are asserted on every deblend result; the parent-side merge is executed under every completion order for <=4 tasks (sampled beyond) through an in-process pool with pickle round-trips, and under real spawn pools with injected delays; every schedule must be bit-identical to nproc=1.',
+    note='Trusted: numpy, pickle. Orders for >4 tasks sampled; real pools give tens of observed orders; OS-level pool failures not modelled.'),
+ 'C07': dict(
+    technique='runtime reference-model monitor (per-label definitions in numpy/fsum) + relation monitors (outside-footprint garbage, label renumbering, row reordering, detection-catalogue delegation)',
+    text='Every listed SourceCatalog quantity is recomputed per label from its definition on the unmasked finite pixels and compared (exact for integer/bbox/min/max quantities, 1e-10 scaled for sums/moments), and row independence is checked by relations, over hostile segmentation maps.',
+    note='Trusted: numpy, astropy WCS. local_background value itself, Kron/windowed quantities are only covered through relations.'),
+ 'C08': dict(
+    technique='runtime history/relation monitor: indexing-commutation on twin catalogues with random pre-evaluated cache content, and parent/child independence histories against a registry model',
+    text='For twin catalogues built from copies of the same inputs, every public property read on an indexed child (15 index forms, random cache content, scalar children) is compared exactly with the indexed parent value; random extra-property/photometry operations on one side must leave the other unchanged.',
+    note='Trusted: numpy; structural comparator self-tested. Empty selections not generated.'),
+ 'C09': dict(
+    technique='runtime history monitor with fresh-object oracle over 7 object families (random read/assign/call interleavings; every value compared with a fresh instance making only that request)',
+    text='Random interleavings of reads, setter assignments and calls are driven on one instance per family (Background2D, apertures, profiles, PSF photometry, star finders, Ellipse, GriddedPSFModel); each returned value must equal exactly what a fresh object returns for that single request and no request may raise because of earlier ones.',
+    note='Trusted: numpy; the fresh object as oracle (so a defect that also affects fresh objects is out of scope here and belongs to the other properties).'),
+ 'C10': dict(
+    technique='runtime write-sentinel monitor (deep snapshots of caller-owned arguments around every outermost public call and later property reads), generated entry-point workload + the repository test-suite as workload in the thorough tier',
+    text='All exported functions, constructors, methods and (lazy) properties are wrapped; caller-owned arrays, masked arrays, Quantities, tables, models, NDData, apertures and segmentation images are snapshotted at entry and compared at exit; a generated workload crosses entry points x representations x data conditions; thorough additionally replays the repository tests under the sentinel.',
+    note='Trusted: the snapshot digests. Covers the entry points in the table and those reached by the suite; mutation undone before return is invisible.'),
+ 'C11': dict(
+    technique='runtime reference-model monitor (own box partition + the user-chosen estimator on clipped box pixels) + relation monitors (mask-blindness, shift/scale equivariance, constant image, bottleneck on/off configuration)',
+    text='Low-resolution meshes are recomputed by the harness box by box and compared; full maps are checked for shape, finiteness, fill_value, mask-blindness, equivariance and range; every case is evaluated with and without the bottleneck accelerator.',
+    note='Trusted: numpy, astropy SigmaClip, the estimator classes themselves (the property takes "the chosen estimator" as given).'),
+ 'C12': dict(
+    technique='runtime recovery monitor on rendered noise-free scenes + exact bookkeeping oracles (own union-find grouping, npixfit/flags definitions, permutation and scaling relations)',
+    text='Noise-free scenes rendered from the fitted model are photometered from perturbed starts; recovered x, y, flux and residuals are compared with truth within tolerances calibrated on the unchanged tree, and ids/order/groups/npixfit/flags/fixed parameters/Iterative(maxiters=1) with exact oracles.',
+    note='Trusted: numpy, astropy fitting as used by the library; tolerances are measurement-based (isolated vs grouped).'),
+ 'C13': dict(
+    technique='runtime reference-model monitor (lattice sums, adaptive quadrature, own bilinear/spline-free sample-point oracle) + history monitor for GriddedPSFModel',
+    text='PRF lattice sums and PSF integrals are compared with the flux, models with each other under the stated identities, ImagePSF with its samples, GriddedPSFModel with the blend of its reference ePSFs under random evaluation/copy histories.',
+    note='Trusted: numpy, scipy.integrate/special.'),
+ 'C14': dict(
+    technique='runtime three-valued reference-model monitor for find_peaks + relation monitors for the star finders (bounded table = filtered wide-open table, brightest, xycoords, ids, finiteness)',
+    text='find_peaks output is judged per pixel by must-include / must-exclude / either predicates computed by the harness; star finders are judged by relations between differently configured runs and by harness-recomputed convolution peaks.',
+    note='Trusted: numpy, scipy.ndimage convolution. Documentation-silent cases accepted either way and counted.'),
+ 'C15': dict(
+    technique='runtime relation monitor: same numbers in different representations (dtype, byte order, layout, MaskedArray, NDData, Quantity) across a table of public entry points',
+    text='Each entry point is run on a float64 baseline and on representation variants of the same numbers; outputs must agree (1e-9 value-preserving, 2e-4 precision-changing), units must be carried, mixed unit-ful/unit-less input must be rejected, and no variant may fail where the baseline succeeds.',
+    note='Trusted: numpy/astropy containers. Entry points limited to the table.'),
+ 'C16': dict(
+    technique='runtime reference-model monitor (own pixel-set statistics with numpy/astropy.stats) + equality with aperture_photometry/area_overlap',
+    text='Every ApertureStats property is recomputed from the pixel set defined by the statement (centre-in-aperture, unmasked, finite, sigma-clipped, background-subtracted) and compared; sums are compared with aperture photometry; NaN rules are checked for no-overlap/no-unmasked-pixel apertures.',
+    note='Trusted: numpy, astropy.stats, the aperture masks (C01).'),
+ 'C17': dict(
+    technique='runtime reference-model + relation monitors (definition of centre of mass, exact quadratic vertices, symmetry, flips/transposition/scaling, per-source independence of centroid_sources)',
+    text='Centroid functions are compared with definitions on constructed inputs and under symmetry relations; centroid_sources is compared exactly with the centroid function applied to each documented cutout, under permutations and sub-lists of the positions.',
+    note='Trusted: numpy, astropy overlap_slices.'),
+ 'C18': dict(
+    technique='runtime reference-model monitor (own superposition renderer) + relation monitors (row order, vstack additivity, off-image rows, units, residual)',
+    text='make_model_image and the PSF-photometry model/residual images are compared with the harness sum over rows on clipped windows and checked for order invariance, additivity, unit carrying and input immutability.',
+    note='Trusted: numpy, astropy discretize_model/overlap_slices.'),
+ 'C19': dict(
+    technique='runtime reference-model monitor (aperture photometry differences) + history monitor for normalize/unnormalize/first-read interleavings + inverse relation of the encircled-energy interpolators',
+    text='Profiles are recomputed from circular-aperture sums and overlap areas; normalisation histories must restore every array; calc_ee_at_radius and calc_radius_at_ee must invert each other on the monotone part.',
+    note='Trusted: numpy, CircularAperture photometry (judged by C01/C02).'),
+ 'C20': dict(
+    technique='runtime recovery monitor on synthetic noise-free elliptical galaxies + exact monitors (sorted sma, fixed parameters, scalar vs vector to_polar, image untouched)',
+    text='Ellipse.fit_image is run on generated galaxies with known geometry; well-sampled isophotes must recover centre, ellipticity, PA and intensity within bands calibrated on the unchanged tree; structural invariants are exact.',
+    note='Trusted: numpy. Bands are measurement-based; fits that return no isophotes are skipped and counted.'),
 }
+
+_V = os.path.dirname(os.path.dirname(os.path.abspath(__file__)))
+DISABLED = {'C02','C03','C09','C10','C11','C12','C13','C14','C15','C16','C17','C18','C19','C20'}
+CHECKS = {k: v for k, v in _T.items()
+          if os.path.exists(os.path.join(_V, 'pv', 'checks', k.lower() + '.py')) and k not in DISABLED}
 NOT_APPLICABLE = {}
